@@ -453,6 +453,8 @@ func (sp *subProcess) startWith(ctx context.Context, element schema.FlowNodeInte
 	}
 	switch eventNode := flowNode.(type) {
 	case *startEvent:
+		// every activation of the sub process fires its start events anew
+		eventNode.activated.Store(false)
 		eventNode.Trigger(ctx)
 	case *throwEvent:
 		eventNode.Trigger(ctx)
@@ -564,6 +566,15 @@ func (sp *subProcess) run(ctx context.Context, out tracing.ITracer) {
 					sp.active.Add(1)
 					defer sp.active.Add(-1)
 
+					// Subscribe before anything can flow so that no inner trace
+					// (in particular the cease flow trace) is missed, and watch
+					// this activation with its own cease flow monitor on the
+					// sub process's own tracer.
+					traces := sp.subTracer.Subscribe()
+					defer sp.subTracer.Unsubscribe(traces)
+					sender := sp.subTracer.RegisterSender()
+					go sp.ceaseFlowMonitor(sp.subTracer)(ctx, sender)
+
 					if err := sp.startAll(ctx); err != nil {
 						subProcessId := ""
 						if pid, present := sp.element.Id(); present {
@@ -576,8 +587,6 @@ func (sp *subProcess) run(ctx context.Context, out tracing.ITracer) {
 						return
 					}
 
-					traces := sp.subTracer.Subscribe()
-					defer sp.subTracer.Unsubscribe(traces)
 				loop:
 					for {
 						var trace tracing.ITrace
@@ -615,12 +624,7 @@ func (sp *subProcess) run(ctx context.Context, out tracing.ITracer) {
 
 func (sp *subProcess) NextAction(ctx context.Context, flow Flow) chan IAction {
 	if sp.active.CompareAndSwap(0, 1) {
-		// flow nodes
-		// StartAll cease flow monitor
-		sender := sp.subTracer.RegisterSender()
-		tracer := sp.wr.tracer
-		go sp.ceaseFlowMonitor(tracer)(ctx, sender)
-		go sp.run(ctx, tracer)
+		go sp.run(ctx, sp.wr.tracer)
 	}
 
 	response := make(chan IAction, 1)
